@@ -9,7 +9,6 @@ import (
 	"encoding/json"
 	"errors"
 	"fmt"
-	"reflect"
 	"sort"
 	"strings"
 	"testing"
@@ -354,8 +353,8 @@ func (p *pipeline) submit(a *Action) (string, string) {
 		ok := aerr == nil
 		if ok {
 			want := external(doc, ns+":"+d.suffix)
-			if !reflect.DeepEqual(d.createReply, want) {
-				return "C20/create-response", fmt.Sprintf("create response document %s differs from the reference projection %s", js(d.createReply), js(want))
+			if df := refdoc.DiffExternal(d.createReply, want); len(df) > 0 {
+				return "C20/create-response", fmt.Sprintf("create response document %s differs from the reference projection %s on %v", js(d.createReply), js(want), df)
 			}
 			// long-form resolution before anchoring must show the same content
 			var lr *document.ResolutionResult
@@ -373,8 +372,8 @@ func (p *pipeline) submit(a *Action) (string, string) {
 				return "C20/long-form", fmt.Sprintf("long-form resolution returns a document for %q", gid)
 			}
 			wantLF := external(doc, gid)
-			if !reflect.DeepEqual(got, wantLF) {
-				return "C20/long-form", fmt.Sprintf("long-form resolution before anchoring %s differs from the reference projection %s", js(got), js(wantLF))
+			if df := refdoc.DiffExternal(got, wantLF); len(df) > 0 {
+				return "C20/long-form", fmt.Sprintf("long-form resolution before anchoring %s differs from the reference projection %s on %v", js(got), js(wantLF), df)
 			}
 			p.feat["long-form-checked"] = true
 		}
@@ -462,7 +461,7 @@ func (p *pipeline) compareAll() (string, string) {
 		gu, _ := method["updateCommitment"].(string)
 		gr, _ := method["recoveryCommitment"].(string)
 		gd, _ := md["deactivated"].(bool)
-		if !reflect.DeepEqual(got, want) || gu != upd || gr != rec || gd != deact {
+		if len(refdoc.DiffExternal(got, want)) > 0 || gu != upd || gr != rec || gd != deact {
 			types := applied
 			return "C20/resolution", fmt.Sprintf("DID %d (%s): reference applies %v (anchored %d, unpublished %d): resolved document %s commitments (%s,%s) deactivated %v; reference predicts %s (%s,%s) %v",
 				i, did, types, d.anchoredN, unpubN, js(got), gu, gr, gd, js(want), upd, rec, deact)
@@ -477,7 +476,7 @@ func (p *pipeline) compareAll() (string, string) {
 		}
 		if d.anchoredN == 1 && unpubN == 0 && d.createReply != nil {
 			// create response vs short-form resolution after anchoring: same content
-			if !reflect.DeepEqual(d.createReply, got) {
+			if len(refdoc.DiffExternal(d.createReply, got)) > 0 {
 				return "C20/create-vs-short-form", fmt.Sprintf("create response %s and short-form resolution after anchoring %s differ", js(d.createReply), js(got))
 			}
 			p.feat["create-vs-short-form"] = true
